@@ -8,8 +8,9 @@ from .core import unparse
 
 
 class Expander(object):
-    def __init__(self, fn):
+    def __init__(self, fn, stop=()):
         self.fn = fn
+        self.stop = set(stop)
         self.defs = {}
         for n in ast.walk(fn):
             if isinstance(n, ast.Assign):
@@ -40,7 +41,7 @@ class Expander(object):
 
         class T(ast.NodeTransformer):
             def visit_Name(self, n):
-                d = ex.defs.get(n.id)
+                d = ex.defs.get(n.id) if n.id not in ex.stop else None
                 if isinstance(n.ctx, ast.Load) and d:
                     if len(d) == 1:
                         return ex.expand(d[0], depth - 1)
